@@ -58,6 +58,10 @@ class _Proxy:
 
     def write(self, data):
         self._wrote = True
+        if self._t.point_on_tmp_write and self._t.on_point and self._t.is_tmp(self._rel):
+            # a scheduling point inside the filling of a temp file (enabled by C09's concurrent part only): what
+            # another thread does to a temp file that is not private shows between two writes
+            self._t.on_point("tmpWrite", self._rel)
         return self._f.write(data)
 
     def writelines(self, lines):
@@ -96,6 +100,7 @@ class Tracer:
         self.fd_path = {}
         self.on_flock_wait = None       # set by the thread scheduler: called when a flock would block
         self.sort_listdir = sort_listdir
+        self.point_on_tmp_write = False
         self._depth = threading.local()
         self._saved = None
 
